@@ -42,7 +42,7 @@ DEFAULTS: Dict[str, Any] = dict(
     max_depth=3, ops_per_step=(2, 5), big_corr=False, autograd=False, bwd_annotation=True, step_gap=(0, 1, 1, 7),
     pre_ops=1, post_ops=1, first_step=None, file_order="time", p_plain_rt=0.08, kernel_durs=(0, 1, 5, 20, 60),
     launch_lat=(0, 0, 1, 3, 10), queue_lat=(0, 0, 1, 5, 40), device_pid=0, repeat_names=False, annotation_nest=False,
-    p_leaf_children=(0, 3), ops_pool=None, p_unlaunched=0.0, sync_straddle=False, source_counters=False, outer_frame=False, corr_zero=False, small_corr=False, tid_base=None, tid_desc=False, post_launch=False, exotic_launch=False, multi_process=False,
+    p_leaf_children=(0, 3), ops_pool=None, p_unlaunched=0.0, sync_straddle=False, source_counters=False, outer_frame=False, corr_zero=False, small_corr=False, tid_base=None, tid_desc=False, post_launch=False, exotic_launch=False, multi_process=False, graph_launch=False,
 )
 
 
@@ -138,6 +138,15 @@ class Sim:
             K = self.X("gpu_memset", "Memset (Device)", p["device_pid"], s, start, kd, dict(dargs, **{"bytes": 512, "memory bandwidth (GB/s)": 2.5}))
         self.free_at[s] = start + kd
         self.last_start[s] = start
+        if p["graph_launch"] and kind == "k" and self.r.random() < 0.35:
+            # a CUDA graph: one launch call, several kernels of the stream that all carry the launch's correlation id
+            L["name"] = "cudaGraphLaunch"
+            for _ in range(self.r.randint(1, 3)):
+                st2 = self.free_at[s] + self.r.choice([0, 1, 4])
+                kd2 = self.r.choice([1, 2, 7, 30])
+                self.X("kernel", self.r.choice(COMP + COMM), p["device_pid"], s, max(st2, self.last_start[s] + 1), kd2, dict(dargs, **{"graph node id": self.r.randint(1, 99)}))
+                self.last_start[s] = max(st2, self.last_start[s] + 1)
+                self.free_at[s] = self.last_start[s] + kd2
         self.last_launch_on[s] = (L, K)
         self.truth["launch"].append((L, K))
         th["t"] = ts + dur + self.d(0, 3)
@@ -455,7 +464,7 @@ def random_params(rnd: random.Random, tier: str, **over: Any) -> Dict[str, Any]:
         annotation_nest=rnd.random() < 0.3, p_unlaunched=rnd.choice([0.0, 0.0, 0.1]), sync_straddle=rnd.random() < 0.3, source_counters=rnd.random() < 0.25, outer_frame=rnd.random() < 0.2, corr_zero=rnd.random() < 0.3,
     )
     p["small_corr"] = rnd.random() < 0.35 and not p["big_corr"]
-    p["tid_base"] = rnd.choice([None, None, None, 33000, 40000, 140737, 2 ** 22 - 200])
+    p["tid_base"] = rnd.choice([None, None, None, 33000, 40000, 140737, 2 ** 22 - 200, 1])      # 1: python is PID 1 of a container (tids 1, 2, 3)
     p["tid_desc"] = rnd.random() < 0.3
     p["post_launch"] = rnd.random() < 0.3
     p["multi_process"] = rnd.random() < 0.2
